@@ -57,6 +57,9 @@ fn main() {
             if let Ok(p) = std::env::var("TV_BIN_DBG") {
                 bins.insert("dbg".to_string(), p);
             }
+            if let Ok(p) = std::env::var("TV_BIN_NSX") {
+                bins.insert("nsx".to_string(), p);
+            }
             let nworkers: u64 = arg(&args, "--workers").and_then(|s| s.parse().ok()).unwrap_or(16);
             let watchdog = Duration::from_secs(arg(&args, "--watchdog").and_then(|s| s.parse().ok()).unwrap_or(if tier == Tier::Quick { 600 } else { 7200 }));
             let a = ParentArgs { property: prop, tier, seed, nworkers, bins, this_flavour: FLAVOUR.into(), watchdog };
@@ -96,6 +99,8 @@ fn main() {
                     "TV_BIN_EYEP"
                 } else if rf.flavour == "dbg" {
                     "TV_BIN_DBG"
+                } else if rf.flavour == "nsx" {
+                    "TV_BIN_NSX"
                 } else {
                     "TV_BIN_ALL"
                 };
